@@ -137,13 +137,18 @@ def run_c09(tier, seed):
             c["id"] = "canary-" + e["id"]
             c["verdict"] = "Ok" if e["verdict"] == "Err" else "Err"
             cans.append(c)
-    path = os.path.join(chk.workdir, "verify-events.ndjson")
-    with open(path, "w") as f:
-        for e in events + cans:
-            f.write(json.dumps(e) + "\n")
-    tr = tlc.run("Trace_Verifier", workdir=chk.workdir, env={"TRACE_FILE": path}, timeout=3000, heap="4g")
-    chk.add_tlc(tr, "Trace_Verifier[%d verify() calls]" % len(events))
-    verd = {v["id"]: v for v in tr.verdicts}
+    verd = {}
+    allev = events + cans
+    BATCH = 12000          # TLC holds the whole event file in memory: keep the files moderate
+    for b in range(0, len(allev), BATCH):
+        path = os.path.join(chk.workdir, "verify-events-%d.ndjson" % b)
+        with open(path, "w") as f:
+            for e in allev[b:b + BATCH]:
+                f.write(json.dumps(e) + "\n")
+        tr = tlc.run("Trace_Verifier", workdir=chk.workdir, env={"TRACE_FILE": path}, timeout=3000, heap="4g")
+        chk.add_tlc(tr, "Trace_Verifier[%d verify() calls]" % len(allev[b:b + BATCH]))
+        verd.update({v["id"]: v for v in tr.verdicts})
+        os.remove(path)
     # a canary flips a verdict: it must be rejected unless the original was itself a violation
     for c in cans:
         orig = verd[c["id"][7:]]["clause"]
